@@ -129,6 +129,7 @@ PROPS["C03"] = Prop(jobs=6,
                _cb("c03_call_wiring_with_fallback", "CircuitBreakerWithFallback::call: rejected => the fallback's result, inner untouched", "as above", profile="service", mem_gb=24, timeout=1800)]
             + _cbfam("c04_step", "every transition into open (failure rate, slow-call rate, failed half-open probe, force_open) stamps the current instant, so the open period always lasts wait_duration_in_open",
                      {("count", 0), ("time", 0)}, timeout=900)
+            + [_cb("readiness_passthrough", "pending / failing readiness of the wrapped service surfaces unchanged; readiness forwards nothing -- whatever state the breaker publishes, with and without fallback", "any published state", timeout=600)]
             + [H("verif_kani::c04b::builder_is_faithful", CB, "the configured wait_duration_in_open (and every other setting) reaches the breaker unchanged", "all values symbolic", models=("tokio",), playback=False, timeout=900),
                H("verif_kani::c04b::builder_classifier_step_is_faithful", CB, "same through the type-changing failure_classifier step", "all values symbolic", models=("tokio",), playback=False, timeout=900)],
     functions=["tower_resilience_circuitbreaker::circuit::Circuit::{try_acquire,record_success,record_failure,transition_to,evaluate_window}", "CircuitBreakerConfigBuilder::{*, failure_classifier, build}"],
@@ -143,7 +144,9 @@ PROPS["C04"] = Prop(jobs=6,
                  "all values symbolic", models=("tokio",), playback=False, timeout=900),
                H("verif_kani::c04b::builder_classifier_step_is_faithful", CB, "same through the type-changing failure_classifier step, settings before or after it; default minimum = FINAL window size in both orders",
                  "all values symbolic", models=("tokio",), playback=False, timeout=900)]
-            + [_cb("c04_custom_classifier_recording", "custom classifier: one outcome recorded per admitted call, failure iff the classifier says so", "one admitted call, any inner outcome", profile="service", mem_gb=24, timeout=1800)],
+            + [_cb("c04_custom_classifier_recording", "custom classifier: one outcome recorded per admitted call, failure iff the classifier says so", "one admitted call, any inner outcome", profile="service", mem_gb=24, timeout=1800),
+               _cb("clones_share_one_breaker", "clones (and the fallback variant) share the circuit and the lock-free state cell: every handle sees every transition", "any published state", timeout=600),
+               next(h for h in PROPS["C03"].harnesses if h.name.endswith("c03_call_wiring"))],
     functions=["Circuit::{record_success,record_failure,try_acquire,force_open,force_closed,reset,transition_to,evaluate_window,metrics,record_count_based,cleanup_old_records,time_based_stats}"],
     bounds=CB_BOUND, outside="window sizes > 3, more than 2 records in a time-based pre-state",
     assumptions=["Instant::now stubbed by a virtual clock; catch_unwind stubbed", "representation invariant as written in any_circuit()"],
@@ -179,6 +182,7 @@ _bh_h = [
     _bh("one_call_two_polls", "per-caller protocol P1-P3, admission in the poll that grants the slot, exact timeout, transparency; semaphore grants at the solver's choice at every poll",
         BH_BOUND.replace("up to 3 schedule steps", "up to 2 schedule steps"), timeout=1500),
     _bh("one_call_any_availability", "same with up to 3 polls", BH_BOUND, timeout=3000, tiers=("thorough",)),
+    H("verif_kani::c01::readiness_passthrough", BH, "pending / failing readiness of the wrapped service surfaces unchanged; readiness forwards nothing", "", models=("tokio",), playback=False, timeout=600),
 ]
 PROPS["C01"] = Prop(harnesses=_bh_h,
     functions=["tower_resilience_bulkhead::service::Bulkhead::{new,poll_ready,call} (the compiled async state machine)", "BulkheadLayer::layer"],
@@ -204,6 +208,7 @@ PROPS["C13"] = Prop(
         H("algorithm::verif_kani_in_algorithm::vegas_limit_in_bounds_adjust", ADAPT, "Vegas::adjust_limit keeps the limit in bounds, unit steps", "arbitrary RTT statistics (any u64), any alpha/beta", models=("tokio",), timeout=900),
         H("algorithm::verif_kani_in_algorithm::vegas_update_rtt_keeps_limit", ADAPT, "Vegas::update_rtt does not touch the limit", "any latency <= 1 h", models=("tokio",), timeout=600),
         H("algorithm::verif_kani_in_algorithm::aimd_wrapper_limit_in_bounds", ADAPT, "Aimd algorithm wrapper keeps the limit in bounds", "any config in the bound", models=("tokio",), timeout=600),
+        H("verif_kani::c13::readiness_passthrough_below_limit", ADAPT, "pending / failing readiness of the wrapped service surfaces unchanged; readiness forwards nothing (below the limit); a refused readiness counts nothing in flight", "", models=("tokio",), playback=False, timeout=600),
         H("verif_kani::c13::in_flight_exact_one_call", ADAPT, "AdaptiveService: readiness iff in_flight < limit; in_flight returns to its previous value on completion, error and drop; transparency",
           "one call, <= 3 polls or drop at any point, any limit 1..=1000, any in-flight count of other clones, any inner outcome", models=("tokio",), profile="service", playback=False, timeout=1800, mem_gb=24),
     ],
@@ -212,8 +217,10 @@ PROPS["C13"] = Prop(
                "tower_resilience_adaptive::service::AdaptiveService::{new,poll_ready,call} + AdaptiveFuture"],
     bounds="limits min <= max <= 2^32 (above 2^53 `current as f64` rounds and is outside the claim); one operation from an arbitrary state; "
            "service: one call, <= 3 polls, drop at any point",
-    outside="limits above 2^32; panicking inner calls (no unwinding in Kani - the drop path is the same RAII guard); several calls of one clone in flight at once",
-    assumptions=["interleavings: every limit update is one load + one store, so an arbitrary pre-state in [min,max] covers every interleaving of any number of threads",
+    outside="limits above 2^32; panicking inner calls (no unwinding in Kani - the drop path is the same RAII guard); several calls of one clone in flight at once; "
+            "CONCURRENT Vegas updates: Vegas' atomics are not instrumented (the rely/guarantee hook covers AimdController only), so for Vegas only the sequential step from an arbitrary state is decided - "
+            "a change that turns its final store into a read-modify-write relative to a stale load is not seen",
+    assumptions=["interleavings (AimdController): every write is checked under interference by the rely/guarantee harness; (Vegas): every limit update is one load + one store in the current code, so an arbitrary pre-state in [min,max] covers its interleavings - this is an assumption about the code shape, not re-checked",
                  "tokio::sync::Semaphore replaced by the model (the service only calls add_permits)", "Instant::now -> virtual clock"],
 )
 
@@ -228,6 +235,7 @@ PROPS["C19"] = Prop(
             "one request; error rate and latency rate any f64 in [0,1]; every roll in [0,1); min/max latency any whole ms <= 100 s (min <,=,> max); any seed; <= 3 polls with an arbitrary advance in between", timeout=1800),
         _ch("clones_share_one_seeded_stream", "clones of one seeded service consume consecutive positions of one stream; same seed => same start",
             "error rate 1 (one draw per request), 3 requests, any seed", timeout=1500),
+        H("verif_kani::c19::readiness_passthrough", CHAOS, "pending / failing readiness of the wrapped service surfaces unchanged; readiness forwards nothing; no random draw for readiness", "any rates, any seed", models=("tokio", "rand"), playback=False, timeout=600),
         H("verif_kani::c19::builder_is_faithful", CHAOS, "builder -> layer: seed, error rate, latency rate and bounds reach the config whatever the order of the builder calls around the two type-changing steps",
           "settings placed before error_rate / between error_rate and error_fn / after error_fn; any seed, rates in [0,1], bounds whole ms <= 100 s", models=("tokio", "rand"), playback=False, timeout=600),
         _ch("deterministic_in_seed_and_order", "clones share one advancing stream; same seed + same order => same decisions and latencies (self-composition)",
@@ -308,6 +316,7 @@ PROPS["C16"] = Prop(
                _r16("custom_policy_no_predicate", "custom policy, no predicate", tiers=("thorough",)),
                _r16("fixed_policy_no_retry", "fixed policy, retry_on_reconnect off"),
                _r16("no_policy", "policy None", tiers=("thorough",)),
+               H("verif_kani::c16::readiness_passthrough", RECONNECT, "pending / failing readiness of the wrapped service surfaces unchanged; readiness forwards nothing", "", models=("tokio", "rand"), playback=False, timeout=600),
                H("verif_kani::c16::builder_is_faithful", RECONNECT, "public builder: attempt limit (0 included; unlimited only when asked; last writer wins), retry_on_reconnect and predicate presence reach the config",
                  "any u32 limit, 4 builder orders", models=("tokio", "rand"), playback=False, timeout=600)],
     functions=["tower_resilience_reconnect::service::{ReconnectService::{new,poll_ready,call},ReconnectFuture::poll}", "ReconnectConfig::should_reconnect", "(ReconnectPolicy::delay_for_attempt is scripted here; its values are C14)", "ReconnectState::{mark_connected,mark_disconnected,mark_reconnecting,state}"],
@@ -362,6 +371,7 @@ PROPS["C06"] = Prop(
                _t6("cancel_huge_timeout", "cancellation on, timeout from 10^6 s up to Duration::MAX: never times out"),
                _t6("no_cancel_huge_timeout", "cancellation off, same", tiers=("thorough",)),
                _t6("builder_is_faithful", "builder -> layer -> service: configured timeout and cancellation mode are used"),
+               H("verif_kani::c06::readiness_passthrough", TLM, "pending / failing readiness of the wrapped service surfaces unchanged; readiness forwards nothing", "both modes", models=("tokio",), playback=False, timeout=600),
                _t6("builder_timeout_fn_is_faithful", "builder with timeout_fn (type-changing step) in both orders: per-request timeout and cancellation mode are used")],
     functions=["tower_resilience_timelimiter::TimeLimiter::{new,poll_ready,call}", "TimeoutFn::get_timeout (FixedTimeout, DynamicTimeout)"],
     bounds="one call, 2 polls, timeout <= 60 s, latency <= 90 s or never",
@@ -410,6 +420,7 @@ PROPS["C11"] = Prop(
         _c11("leader_waiter_and_other_key", "one inner call per key; waiter gets a clone of the leader's result or LeaderCancelled at its next poll; key reusable at once; keys independent",
              "3 requests over 2 keys through clones of one service (+ a 4th after completion/cancellation); leader completed (inner completes at a poll of the solver's choice, ok/err) or dropped; all 32-bit requests/results"),
         _c11("dropped_waiter_is_harmless", "a dropped waiter does not disturb the leader or other waiters", "1 leader, 2 waiters on one key"),
+        H("verif_kani::c11::readiness_passthrough", COAL, "pending / failing readiness of the wrapped service surfaces unchanged; readiness forwards nothing", "", models=("tokio", "hashbrown"), playback=False, timeout=600),
         _c11("lone_leader_dropped_key_reusable", "a leader dropped (before or after its first poll, finished or not) while nobody waits frees its key: the next request starts its own call and resolves with it",
              "2 requests on one key, all 32-bit requests/results"),
     ],
@@ -433,6 +444,7 @@ _r5 = lambda n, what, **kw: H("verif_kani::c05::" + n, RETRY, what,
     models=("tokio", "rand"), profile="service", playback=False, mem_gb=24, timeout=2400, **kw)
 PROPS["C05"] = Prop(
     harnesses=[_r5("waits_full_backoff", "still pending and no retry at any instant before the backoff elapsed; retry exactly when it has"),
+               _r5("waits_full_backoff_after_slow_attempt", "an attempt that itself takes time is still followed by the FULL backoff, measured from its failure"),
                _r5("plain_two_attempts", "no predicate, no budget, max_attempts 0..=2"),
                _r5("with_budget_two_attempts", "budget + predicate, max_attempts 0..=2"),
                _c14("exp_overflow_saturates_to_cap", "the configured exponential backoff never collapses to zero deep into a retry sequence (shared with C14)",
@@ -440,6 +452,7 @@ PROPS["C05"] = Prop(
                _c14("exp_total_cap_anypow", "the configured exponential backoff is total and capped for every attempt (shared with C14)", "see C14", timeout=600),
                H("verif_kani::c05::builder_is_faithful", RETRY, "public builder -> layer -> service: attempt limit (fixed / per request), fixed back-off, predicate and budget reach the config, two builder orders",
                  "any usize limit, back-off whole ms <= 1000 s", models=("tokio", "rand"), playback=False, timeout=600),
+               H("verif_kani::c05::readiness_passthrough", RETRY, "pending / failing readiness of the wrapped service surfaces unchanged; readiness forwards nothing", "", models=("tokio", "rand"), playback=False, timeout=600),
                _r5("plain", "no predicate, no budget, max_attempts 0..=3", tiers=("thorough",)), _r5("with_predicate", "retry predicate", tiers=("thorough",)),
                _r5("with_budget", "retry budget", tiers=("thorough",)),
                _r5("with_budget_predicate_dynamic_max", "budget + predicate + per-request max_attempts", tiers=("thorough",))],
@@ -504,7 +517,9 @@ def _retier(h, tiers):
     h2 = _copy.copy(h)
     h2.tiers = tiers
     return h2
-_c20refs_quick = [_ref("C03", "c03_call_wiring"), _ref("C17", "strategy_value"), _ref("C13", "in_flight_exact_one_call"), _ref("C02", "call_wiring")]
+_c20refs_quick = [_ref("C03", "c03_call_wiring"), _ref("C17", "strategy_value"), _ref("C13", "in_flight_exact_one_call"), _ref("C02", "call_wiring"),
+                  _ref("C03", "in_circuit::readiness_passthrough"), _ref("C06", "c06::readiness_passthrough"), _ref("C05", "c05::readiness_passthrough"), _ref("C16", "c16::readiness_passthrough"),
+                  _ref("C19", "c19::readiness_passthrough"), _ref("C11", "c11::readiness_passthrough"), _ref("C01", "c01::readiness_passthrough"), _ref("C13", "readiness_passthrough_below_limit")]
 _c20refs_thorough = [_ref("C01", "one_call_any_availability"), _ref("C11", "dropped_waiter_is_harmless"), _ref("C03", "c03_call_wiring_with_fallback"), _ref("C06", "cancel_fixed_timeout"), _ref("C06", "no_cancel_fixed_timeout"), _ref("C06", "cancel_huge_timeout"), _ref("C19", "one_request_all_rolls"),
                      _ref("C05", "plain"), _ref("C16", "custom_policy_predicate_retry"), _ref("C11", "leader_waiter_and_other_key"), _ref("C11", "lone_leader_dropped_key_reusable")]
 PROPS["C20"] = Prop(
